@@ -7,6 +7,7 @@ import itertools
 import random
 
 from ..oracles import C01Monitor, success_end_state, trace_summary
+from .. import vclock
 from ..world import EnumPlan, InternalError, RandomPlan, Runner, World
 
 PROP = "C03"
@@ -26,6 +27,8 @@ ASSUMPTIONS = [
 ]
 KINDS = ["drop", "dup", "delay1", "delay2", "delay4", "quiet", "late", "race"]
 SEG = 4
+BINARY_MSGS = [[["raw", "80818283848586"], ["raw", "fffefdfcfb"]], [["raw", "c3283132333435"], ["orig", 5, 2, 7, 2], ["raw", "e28228e28228"]],
+               [["raw", "0102030405"]]]
 SIZES_ALL = [0, 1, 4, 8, 9]
 
 
@@ -36,10 +39,24 @@ def base_cfg(size, imm, closure, limit, content=0):
     }
 
 
-def execute(cfg, plan, max_expiries, pacing=None):
+def execute(cfg, plan, max_expiries, pacing=None, prior=None):
     """Returns (world, runner, outcome, internal_error) -- caller closes the world."""
     w = World(cfg)
     mon = C01Monitor(w)
+    w.judged_since = 0
+    if prior is not None:
+        # the same two handlers already carried a transfer (without faults), possibly of the other kind, and some time has passed since
+        saved = {k: w.cfg[k] for k in ("mode", "closure")}
+        w.cfg.update(mode=prior["mode"], closure=prior["closure"])
+        try:
+            w.put()
+            Runner(w, max_expiries=30, max_rounds=3000).run()
+        except InternalError as e:
+            return w, Runner(w), "exception", e, mon
+        w.cfg.update(saved)
+        vclock.use(w.clock)
+        vclock.advance(prior["gap_ms"])
+        w.judged_since = w.log.seq
     r = Runner(w, plan=plan, max_expiries=max_expiries, max_rounds=3000, pacing=pacing)
     err = None
     try:
@@ -144,6 +161,20 @@ def gen_cases(tier, seed):
                         n1 = emission_count(key_of(cfg), ((p1, "drop"),), pk)
                         for p2 in range(p1 + 1, n1 + 1):
                             cases.append({"cfg": cfg, "faults": {str(p1): "drop", str(p2): "drop"}, "K": 2, "pacing": pacing})
+    # what the Metadata PDU carries besides the names (binary messages to user, a reserved one, other options) must not matter for the
+    # recovery, nor must an earlier transfer on the same handlers (of the other kind, some time ago): every single fault, both NAK modes
+    for size, imm in itertools.product((5, 9), (True, False)):
+        cfg = base_cfg(size, imm, bool(size % 2) == imm, 3)
+        n = emission_count(key_of(cfg), ())
+        variants = [({"msgs": m}, None) for m in BINARY_MSGS]
+        variants += [({"opts": {"fs_requests": 1, "overrides": 2, "flow_label": "0a0b"}}, None)]
+        variants += [({}, {"mode": pm, "closure": pc, "gap_ms": gap}) for (pm, pc), gap in itertools.product((("unack", True), ("unack", False), ("ack", False)), (0, 5000, 70000))]
+        for extra, prior in variants:
+            for pos in range(n + 1):
+                for kind in (("drop", "late", "dup") if tier == "quick" else KINDS):
+                    cases.append({"cfg": dict(cfg, **extra), "faults": {str(pos): kind}, "K": 1})
+                    if prior:
+                        cases[-1]["prior"] = prior
     rng = random.Random(77 + seed)
     for i in range(nrand):
         K = rng.choice([2, 3, 4, 5, 6])
@@ -158,6 +189,10 @@ def gen_cases(tier, seed):
         cases.append({"cfg": cfg, "random": {"seed": seed * 1_000_003 + i, "K": K,
                                              "p": {"drop": 0.08, "dup": 0.04, "delay": 0.05, "quiet": 0.02, "late": 0.02, "race": 0.02}}, "K": K})
         cfg["scribble_pdus"], cfg["scribble_user"] = i % 5 == 0, i % 7 == 0
+        if i % 4 == 1:
+            cfg["msgs"] = rng.choice(BINARY_MSGS)
+        if i % 4 == 2:
+            cases[-1]["prior"] = {"mode": rng.choice(["ack", "unack"]), "closure": rng.random() < 0.6, "gap_ms": rng.choice([0, 900, 5000, 70000])}
         if i % 3 == 0:
             cases[-1]["pacing"] = rng.choice([{"src_calls": 3}, {"src_calls": 6}, {"dst_calls": 3}, {"src_calls": 2, "dst_calls": 2}, {"dst_idle": 2}])
     return cases
@@ -171,13 +206,13 @@ def run_case(case):
     else:
         rp = case["random"]
         plan = RandomPlan(rp["seed"], rp["p"], max_faults=rp["K"])
-    w, r, outcome, err, mon = execute(cfg, plan, 6 * limit + 20, case.get("pacing"))
+    w, r, outcome, err, mon = execute(cfg, plan, 6 * limit + 20, case.get("pacing"), case.get("prior"))
     try:
         viol = []
         if err is not None:
             viol.append({"clause": "api-call-raised", "side": err.side, "etype": type(err.exc).__name__, "msg": str(err.exc)[:200]})
         else:
-            viol += success_end_state(w, r, outcome, allow_faults_cb=True, exactly_one=False)
+            viol += success_end_state(w, r, outcome, allow_faults_cb=True, exactly_one=False, since=w.judged_since)
         viol += mon.viol
         applied = [(a[1], a[2], a[3]) for a in plan.applied]
         for v in viol:
@@ -188,7 +223,8 @@ def run_case(case):
             v["dst_step"] = w.D.h.step.name
         obs = {"faults_applied": len(applied), "expiries": r.expiries, "shell_acks": r.shell_acks,
                "proto_exc_caught": len(r.proto_exc), "success_reports_checked": mon.success_reports,
-               "fault_callbacks": len(w.log.of("fh")), f"K{case['K']}_cases": 1, "cases_with_other_pacing": int(bool(case.get("pacing")))}
+               "fault_callbacks": len(w.log.of("fh")), f"K{case['K']}_cases": 1, "cases_with_other_pacing": int(bool(case.get("pacing"))),
+               "cases_on_handlers_with_an_earlier_transfer": int(bool(case.get("prior"))), "cases_with_binary_messages_to_user": int(bool(cfg.get("msgs")))}
         for a in plan.applied:
             kind = a[2].split("(")[0].split("[")[0]
             obs[f"fault_{a[1].rstrip('0123456789')}_{kind}"] = obs.get(f"fault_{a[1].rstrip('0123456789')}_{kind}", 0) + 1
@@ -206,5 +242,5 @@ def exhaustive(tier):
     return False
 
 
-REQUIRED = {"faults_applied": 100, "fault_drop_EOF": 1, "fault_drop_NAK": 1, "fault_drop_FIN": 1, "fault_drop_ACK_EOF": 1,
+REQUIRED = {"faults_applied": 100, "cases_on_handlers_with_an_earlier_transfer": 100, "cases_with_binary_messages_to_user": 100, "fault_drop_EOF": 1, "fault_drop_NAK": 1, "fault_drop_FIN": 1, "fault_drop_ACK_EOF": 1,
             "fault_drop_ACK_FIN": 1, "fault_drop_MD": 1, "fault_drop_FD": 1}
